@@ -246,8 +246,12 @@ func init() {
 		opGen{"stage-something", always, func(g *G) Step {
 			return Step{Op: "write", Path: "c.txt", Data: []byte(fmt.Sprintf("%d\n", g.E.H.StepNo))}
 		}},
+		opGen{"forget-global-config", func(g *G) bool { return g.E.Cur.HeadCommit() != "" }, func(g *G) Step {
+			// an identity that was complete when the history began is incomplete later
+			return Step{Op: "forget-global-config"}
+		}},
 		opGen{"add-c", func(g *G) bool { return hasFile(g.E.Cur, "c.txt") }, func(g *G) Step { return goit("add", "c.txt") }},
 	)
 }
 
-var configWeights = Weights{"config-set": 50, "stage-something": 12, "add-c": 14, "commit": 24}
+var configWeights = Weights{"config-set": 50, "stage-something": 12, "add-c": 14, "commit": 24, "forget-global-config": 4}
